@@ -131,7 +131,7 @@ Apply(act) ==
 
 SlotsBy == [t \in SchemaTypes |-> {s \in Slots : s[1] = t}]
 
-ScalarShapes == {"str", "char", "strpat", "enum", "int", "float", "bool", "hex", "bind", "expr", "regex", "listexpr"}
+ScalarShapes == {"str", "char", "strpat", "enum", "int", "float", "bool", "hex", "bind", "expr", "regex", "listexpr", "istring"}
 ListShapes   == {"numlist2", "numlist3", "numlist4", "numlist6", "hexpair", "bindpair", "mixedpair"}
 
 Num(sh, id) == [sh |-> sh, id |-> id]
